@@ -32,7 +32,7 @@ Known == {"nl.bsn", "nl.onderwijsnummer", "pl.nip", "pl.regon", "pt.nif", "dk.cv
           "es.cups", "es.nif", "es.referenciacatastral", "fr.nir", "in_.gstin", "si.emso", "tn.mf", "tw.ubn", "ua.rntrc", "us.ptin",
           "bg.vat", "cz.dic", "sk.dph", "ro.cf", "th.tin", "it.codicefiscale", "mu.nid", "eu.at_02", "mx.rfc", "mx.curp"}
 (* formats with further rules (dates, ranges) that are not transcribed: the checksum is only a NECESSARY condition *)
-Necessary == {"no.fodselsnummer", "fi.hetu", "ch.ssn", "lv.pvn", "pl.pesel", "ee.ik", "at.tin", "dk.cpr", "za.idnr"}
+Necessary == {"no.fodselsnummer", "fi.hetu", "ch.ssn", "lv.pvn", "pl.pesel", "ee.ik", "at.tin", "dk.cpr", "za.idnr", "se.personnummer", "cz.bankaccount"}
 
 WRev(c, n, w) == Sum(LAMBDA i : w[i] * D(c[n + 1 - i]), n)      \* weights counted from the right over the first n characters
 LuhnSum(c) == Sum(LAMBDA i : IF (Len(c) - i) % 2 = 1 THEN DigitSum(2 * D(c[i])) ELSE D(c[i]), Len(c))
@@ -537,5 +537,14 @@ NecessaryN(m, c) ==
                           IN NRealDate(cent + yy, NumOf(c, 3, 4), NumOf(c, 1, 2))
     [] m = "za.idnr" -> /\ Len(c) = 13 /\ IsDigits(c) /\ LuhnSum(c) % 10 = 0 /\ c[11] \in {48, 49}
                         /\ (NRealDate(1900 + NumOf(c, 1, 2), NumOf(c, 3, 4), NumOf(c, 5, 6)) \/ NRealDate(2000 + NumOf(c, 1, 2), NumOf(c, 3, 4), NumOf(c, 5, 6)))
+    [] m = "se.personnummer" -> /\ Len(c) \in {11, 13} /\ c[Len(c) - 4] \in {45, 43}
+                               /\ LET dg == SubSeq(c, 1, Len(c) - 5) \o SubSeq(c, Len(c) - 3, Len(c))
+                                      ten == SubSeq(dg, Len(dg) - 9, Len(dg))
+                                  IN /\ IsDigits(dg) /\ LuhnSum(ten) % 10 = 0
+                                     /\ IF Len(c) = 13 THEN NRealDate(NumOf(c, 1, 4), NumOf(c, 5, 6), NumOf(c, 7, 8))
+                                        ELSE \E cent \in {1800, 1900, 2000} : NRealDate(cent + NumOf(c, 1, 2), NumOf(c, 3, 4), NumOf(c, 5, 6))
+    [] m = "cz.bankaccount" -> /\ Len(c) = 22 /\ c[7] = 45 /\ c[18] = 47 /\ IsDigits(SubSeq(c, 1, 6)) /\ IsDigits(SubSeq(c, 8, 17)) /\ IsDigits(SubSeq(c, 19, 22))
+                              /\ W(ZFill(SubSeq(c, 1, 6), 10), <<6, 3, 7, 9, 10, 5, 8, 4, 2, 1>>) % 11 = 0
+                              /\ W(SubSeq(c, 8, 17), <<6, 3, 7, 9, 10, 5, 8, 4, 2, 1>>) % 11 = 0
     [] m = "pl.pesel" -> Len(c) = 11 /\ IsDigits(c) /\ (10 - (W(c, <<1, 3, 7, 9, 1, 3, 7, 9, 1, 3>>) % 10)) % 10 = D(c[11])
 =============================================================================
